@@ -7,12 +7,13 @@ EXTENDS AbsMessage, KnownFindings, Json, IOUtils, TLC, TLCExt
 Shard == JsonDeserialize(IOEnv.TRACE_FILE)
 Runs == Shard.events
 Idx == MkIndex(Shard.hdr.schema.types)
+JudgeLen == "judge_len" \in DOMAIN Shard.hdr /\ Shard.hdr.judge_len
 VARIABLES r, i, st
 vars == <<r, i, st>>
 
 Init == r = 1 /\ i = 1 /\ st = IF Len(Runs) >= 1 THEN InitAbs(Idx, Runs[1].ty) ELSE [val |-> <<>>, unk |-> <<>>, bad |-> "", detail |-> ""]
 Advance == /\ r <= Len(Runs) /\ i <= Len(Runs[r].log) /\ st.bad = ""
-           /\ st' = Step(Idx, Runs[r].ty, st, Runs[r].log[i])
+           /\ st' = Step(Idx, Runs[r].ty, st, Runs[r].log[i], JudgeLen)
            /\ i' = i + 1 /\ r' = r
 Finish == /\ r <= Len(Runs) /\ (i > Len(Runs[r].log) \/ st.bad # "")
           /\ PrintT(<<"V", Runs[r].id, IF st.bad = "" THEN "ok" ELSE st.bad,
